@@ -100,3 +100,43 @@ func init() {
 		},
 	})
 }
+
+func isRegistryGuard(g guardEntry) bool {
+	return g.field == "handlers" || g.field == "streams" || g.field == "rErr"
+}
+
+func init() {
+	register(&propSpec{
+		id: "C05",
+		explanation: "Structural necessary conditions of 'multiplexed calls are isolated': ids are allocated only by sync/atomic.AddUint64(&counter, 1) (C05.1), every dispatch is a registry lookup keyed by the Id of the very envelope forwarded (C05.2), every non-init access to the two id registries happens with the registry mutex in the must-lockset (C05.3), the per-call queues have exactly the frozen single senders/receivers and no goroutine is started per envelope (C05.4), registry insertions are keyed by the call's own id / the open envelope's Id (C05.5). The interleaving space itself is NOT decided; id wrap-around of a uint64 incremented by one is noted as impossible in practice, not checked.",
+		ruleText:    "obligation = one counter access, dispatch site, registry access, queue role set or insertion; non-trivial = needed locksets, provenance or path facts",
+		assumptions: baseAssumptions,
+		run: func(c *Ctx, thorough bool) {
+			c.guard("C05.1", func() { ruleAtomicIds(c, "C05.1") })
+			c.guard("C05.2", func() { ruleDispatchById(c, "C05.2") })
+			c.guard("C05.3", func() { ruleGuardedFields(c, "C05.3", isRegistryGuard) })
+			c.guard("C05.4", func() {
+				rulePipeline(c, "C05.4", func(q queueSpec) bool {
+					return q.name == "unary.respChan" || q.name == "stream.respChan" || q.name == "srvstream.ch" || q.name == "conn.writeChan"
+				}, false)
+				rulePerEnvelopeGoroutines(c, "C05.4")
+			})
+			c.guard("C05.5", func() { ruleRegistrationKey(c, "C05.5") })
+		},
+	})
+	register(&propSpec{
+		id: "C06",
+		explanation: "Structural necessary conditions of 'every emitted envelope sequence conforms to the wire protocol': the alphabet each side can emit is exactly the catalogue of 10 construction sites with the field combinations the README grammar allows (C06.1); ids and addressing have constant provenance per stream and direction, responses swap source/destination, servers emit only for received ids, return routes drop the last hop under len>1 (C06.2, C06.4); trailer emission is test-and-set under the stream lock, the client reset is built only under 'no trailer ∧ context done' (C06.3); only the writer goroutine writes to a server connection's transport (C06.5); the trailer is queued before the deferred unregistration (C06.6); unknown-stream envelopes are answered per the table reset/ignore/open (C06.7); the unary reply always has header+trailer and a body exactly when the handler produced one (C06.8). Acceptance of concrete histories by the protocol automaton is NOT decided.",
+		ruleText:    "obligation = one construction site, field provenance, typestate guard, write site or dispatch branch; non-trivial = needed provenance, facts, dominance or locksets",
+		assumptions: baseAssumptions,
+		run: func(c *Ctx, thorough bool) {
+			c.guard("C06.1", func() { ruleShapeCatalogue(c, "C06.1") })
+			c.guard("C06.2", func() { ruleAddressing(c, "C06.2") })
+			c.guard("C06.3", func() { ruleOnceOnly(c, "C06.3"); ruleHeaderTypestate(c, "C06.3") })
+			c.guard("C06.5", func() { ruleSingleWriter(c, "C06.5") })
+			c.guard("C06.6", func() { ruleTrailerBeforeUnregister(c, "C06.6") })
+			c.guard("C06.7", func() { ruleUnknownStream(c, "C06.7") })
+			c.guard("C06.8", func() { ruleUnaryReplyComplete(c, "C06.8") })
+		},
+	})
+}
